@@ -3,7 +3,7 @@ PROPERTY = "C12"
 LEVEL = "proof"
 FUNCTIONS = ['uxarray.remap.nearest_neighbor._nearest_neighbor@rank1',
     'uxarray.remap.nearest_neighbor._nearest_neighbor@rank2']
-STANDINS = ["remapping"]
+STANDINS = ["remapping", "remap_history"]
 ASSUMPTIONS = []
 EXPLANATION = ""
 LEVEL_TEXT = '_nearest_neighbor proved (rank 1 and 2): every destination value is the value of one in-range source element for the same leading index (no invented values), given the neighbour search as an assumed contract; the neighbour search itself, identity on own elements and IDW convexity/monotonicity are bounded (brute-force great circle, one-hot fields)'
